@@ -26,7 +26,7 @@ from vlib.shim import MUTATING_KINDS
 
 PRE_WEIGHTS = {'add': 8, 'addpack': 6, 'pack': 3, 'clean': 1, 'delete': 1, 'aux_add': 3, 'loosen': 1}
 OP_KINDS = gen.weighted(
-    {'add': 3, 'addpack': 10, 'pack': 8, 'clean': 3, 'delete': 3, 'repack': 5, 'repack_pack': 2, 'import': 6, 'loosen': 1,
+    {'add': 3, 'addpack': 10, 'pack': 8, 'clean': 3, 'delete': 3, 'repack': 5, 'repack_pack': 2, 'import': 10, 'loosen': 1,
      'seekread': 2, 'add_over_damaged': 2}
 )
 
@@ -67,9 +67,16 @@ class Prepared:
         try:
             for op in case['ops']:
                 world.apply(op)
+            op = case['op']
+            if op['k'] == 'import' and op['b'] % 2:
+                # an import that moves several objects (several cache flushes, pack roll-overs): top the source container up
+                for extra in range(3):
+                    world.apply({'k': 'aux_add', 'a': op['a'] + 1 + extra, 'b': 0, 'f': extra, 'n': []})
+                op = dict(op, n=list(op['n']) + [1 + 4 * i for i in range(5)])
+                if op['a'] % 4:  # mostly with a memory budget that holds a few objects, so that the cache is flushed midway
+                    op = dict(op, b=op['b'] if op['b'] % 3 else op['b'] + 1, f=op['f'] | (8 if op['a'] % 2 else 0))
             self.model = dict(world.model)
             self.aux_model = dict(world.aux_model)
-            op = case['op']
             self.planted = {}
             if op['k'] == 'add_over_damaged':
                 self.rop = self._plant_damage(world, op)
